@@ -152,6 +152,7 @@ func (interp *Interpreter) importSrc(rPath, importPath string, skipTest bool) (_
 	// into the caller of Eval or EvalPath.
 	defer func() {
 		if r := recover(); r != nil {
+			interp.clearPanic()
 			var pc [64]uintptr // 64 frames should be enough.
 			n := runtime.Callers(1, pc[:])
 			err = Panic{Value: r, Callers: pc[:n], Stack: debug.Stack()}
